@@ -55,6 +55,9 @@ Schema(c) ==
     \* na never mentions nd: it reaches the union Tint only through the alias Shade of the shared namespace
     ("Tint"  :> DUnion("nd", "", TRUE, <<Tag("dark", TVoid), Tag("light", TVoid)>>)) @@
     ("Shade" :> DAlias(NB(c), TRef("Tint"), "")) @@
+    \* aliases of the shared namespace that WRAP the class of the fourth namespace: they are written out where they are used
+    ("Shades" :> DAlias(NB(c), TList(TRef("Tint"), Unset, Unset), "")) @@
+    ("MaybeShade" :> DAlias(NB(c), TNull(TRef("Tint")), "")) @@
     \* a namespace whose only type inherits a defaulted field from another namespace and has nothing optional of its own
     ("Base0"  :> DStruct(NB(c), "", <<Fld("id", Str), FldD("weight", I32, VInt(13))>>, <<>>, FALSE)) @@
     ("Circle" :> DStruct("nf", "Base0", <<Fld("radius", TFloat("Float64", Unset, Unset))>>, <<>>, FALSE)) @@
@@ -102,6 +105,7 @@ Schema(c) ==
                            Fld("label", TRef("Label")), Fld("ra", TNull(TRef("RA"))),
                            Fld("trees", TMap(TRef("Tree"))),          \* a map of structs with enumerated subtypes
                            Fld("hue", TNull(TRef("Hue"))),
+                           Fld("shades", TNull(TRef("Shades"))), Fld("maybe_shade", TRef("MaybeShade")),
                            Fld("saplings", TList(TNull(TRef("Tree")), Unset, Unset)),   \* nullable items with enumerated subtypes
                            Fld("rb", TList(TRef("RB"), Unset, Unset))>>, <<>>, FALSE)) @@
     (IF c.ring THEN ("Yb" :> DStruct(NB(c), "", <<Fld("z", TNull(TRef("Zc")))>>, <<>>, FALSE)) @@
@@ -242,7 +246,9 @@ PySurface(c, ns) ==
          structs |-> {StructSurface(sc, n) : n \in {x \in mine : sc[x].k = "struct"}},
          unions  |-> {UnionSurface(sc, n) : n \in {x \in mine : sc[x].k = "union"}},
          validators |-> {PyName(n) : n \in mine},                      \* <Name>_validator for every type and alias
-         class_aliases |-> {n \in mine : sc[n].k = "alias" /\ Under(sc, sc[n].t).k = "ref"},   \* Alias = Class
+         \* Alias = Class, when the alias stands for the class itself (through aliases only: an alias of `Class?` names a
+         \* nullable type, not a class)
+         class_aliases |-> {n \in mine : sc[n].k = "alias" /\ AliasOnly(sc, sc[n].t).k = "ref"},
          aliases |-> {[n |-> n, sym |-> Sym(sc, ns, sc[n].t)] : n \in {x \in mine : sc[x].k = "alias"}},
          routes |-> {[n |-> r.n, ver |-> r.ver, deprecated |-> r.dep # "none", arg |-> r.arg, res |-> r.res,
                       err |-> r.err, style |-> r.style,
